@@ -7,6 +7,7 @@ CONSTANTS
   MaxList = 2
   GenMode = TRUE
   Wide = FALSE
+  DEV_StoreBeforeValidate = FALSE
   DEV_SortedIdLists = FALSE
   DEV_SpellingInEq = FALSE
 INVARIANT Emit
